@@ -68,7 +68,7 @@ func (s c09State) key() string {
 	return b.String()
 }
 
-func c09Model(initial c09State) porcupine.Model {
+func c09Model(initial c09State, capN int) porcupine.Model {
 	return porcupine.Model{
 		Init: func() interface{} { return initial },
 		Step: func(st, in, out interface{}) (bool, interface{}) {
@@ -85,6 +85,11 @@ func c09Model(initial c09State) porcupine.Model {
 				n := s.clone()
 				n.ever[i.MB+":"+o.ID] = true
 				n.boxes[i.MB] = append(n.boxes[i.MB], o.ID)
+				// the per-mailbox cap evicts oldest-first, atomically with the add (both stores
+				// do it under the mailbox lock)
+				for capN > 0 && len(n.boxes[i.MB]) > capN {
+					n.boxes[i.MB] = n.boxes[i.MB][1:]
+				}
 				return true, n
 			case "remove", "seen", "get":
 				idx := -1
@@ -368,7 +373,7 @@ func c09Scenario(c *fw.Ctx, sp c09Spec) schedScenario {
 			hist = append(hist, porcupine.Operation{ClientId: len(sp.Threads), Input: c09In{Kind: "list", MB: mb}, Call: end, Output: c09Out{IDs: finalLists[mb], Err: strings.HasPrefix(finalLists[mb], "ERR ")}, Return: end + 1})
 			hs = append(hs, fmt.Sprintf("[final] list(%s) -> [%s]", mb, finalLists[mb]))
 		}
-		if !porcupine.CheckOperations(c09Model(initial), hist) {
+		if !porcupine.CheckOperations(c09Model(initial, sp.Store.Cap), hist) {
 			res.Probs = append(res.Probs, [2]string{"not-linearizable", "no sequential order of the operations consistent with real time explains the results (lost update, lost mail, duplicate id or stale read)\nhistory (scheduler-step intervals):\n  " + strings.Join(hs, "\n  ")})
 		}
 		return res
